@@ -494,7 +494,7 @@ func Child(c *run.Ctx, name string) {
 		c.EndCase(gi)
 	}
 	f.kinds.Range(func(k, _ any) bool { c.Cover("statement-kinds", k.(string), 1); return true })
-	f.rd.Server.Close()
+	// no Server.Close(): it waits for outstanding handlers, and a leaked handler never returns
 }
 
 func clipAll(ss []string, n int) []string {
